@@ -364,6 +364,71 @@ Section Bulk.
   Proof. intros Hs Hl. rewrite (bulk_load_small es Hl). now apply bulk_load_fixed_spec. Qed.
 End Bulk.
 
+(** * whatever the separators, a successful bulk_load stores exactly the loaded entries (the defect
+      is one of routing only: an unbounded scan still returns everything) *)
+Section BulkAbs.
+  Variable d : nat.
+  Variable ksz : key -> Z.
+  Variable sepf : node -> result key.
+
+  Lemma mk_internal_abs g n : mk_internal ksz sepf g = Ok n -> abs n = flat_map abs g.
+  Proof.
+    destruct g as [|c rest]; cbn [mk_internal]; [discriminate|].
+    destruct (map_result sepf rest) as [seps|e]; cbn [bind]; [|discriminate].
+    unfold write_node. destruct (fits_node ksz seps (c :: rest)); [|discriminate].
+    intros H. inversion H; subst. reflexivity.
+  Qed.
+
+  Lemma map_mk_internal_abs : forall gs next, map_result (mk_internal ksz sepf) gs = Ok next ->
+    flat_map abs next = flat_map abs (concat gs).
+  Proof.
+    induction gs as [|g gs IH]; cbn [map_result]; intros next H.
+    - inversion H; subst. reflexivity.
+    - destruct (mk_internal ksz sepf g) as [n|e] eqn:E; cbn [bind] in H; [|discriminate].
+      destruct (map_result (mk_internal ksz sepf) gs) as [ns|e]; cbn [bind] in H; [|discriminate].
+      inversion H; subst. cbn [flat_map concat]. rewrite flat_map_app'.
+      now rewrite (mk_internal_abs _ _ E), (IH ns eq_refl).
+  Qed.
+
+  Lemma build_levels_abs : forall fuel ns h t, build_levels d ksz sepf fuel ns h = Ok t ->
+    abs (root t) = flat_map abs ns.
+  Proof.
+    induction fuel as [|f IH]; intros ns h t H.
+    - destruct ns as [|x [|y ns]]; cbn in H; try discriminate. inversion H; subst. cbn. now rewrite app_nil_r.
+    - destruct ns as [|x [|y ns]]; [cbn in H; discriminate|cbn in H; inversion H; subst; cbn; now rewrite app_nil_r|].
+      set (lv := x :: y :: ns) in *.
+      change (build_levels d ksz sepf (S f) lv h) with
+        (bind (map_result (mk_internal ksz sepf) (chunk (length lv) (internal_capacity d) lv))
+              (fun next => build_levels d ksz sepf f next (S h))) in H.
+      destruct (map_result (mk_internal ksz sepf) (chunk (length lv) (internal_capacity d) lv)) as [next|e] eqn:E;
+        cbn [bind] in H; [|discriminate].
+      rewrite (IH _ _ _ H), (map_mk_internal_abs _ _ E).
+      pose proof (internal_capacity_ge d) as Hic.
+      destruct (chunk_spec (internal_capacity d) ltac:(lia) (length lv) lv (le_n _)) as [C1 _].
+      now rewrite C1.
+  Qed.
+
+  Theorem bulk_load_with_abs es t : StronglySorted Z.le (map fst es) ->
+    bulk_load_with d ksz sepf es = Ok t -> abs (root t) = mm_of_list es.
+  Proof.
+    intros Hs. unfold bulk_load_with. destruct es as [|e0 es0].
+    - unfold write_leaf. destruct (fits_leaf ksz []); cbn [bind]; [|discriminate].
+      intros H. inversion H; subst. reflexivity.
+    - set (es := e0 :: es0) in *. rewrite (group_spec es Hs). set (g := mm_of_list es) in *.
+      pose proof (leaf_capacity_ge d) as Hlc.
+      destruct (chunk_spec (leaf_capacity d) Hlc (length g) g (le_n _)) as [C1 _].
+      set (gs := chunk (length g) (leaf_capacity d) g) in *.
+      destruct (map_result_ok (write_leaf ksz) Leaf gs) as [-> | ->]; cbn [bind]; [| |discriminate].
+      { intros x _. apply write_leaf_cases. }
+      intros H. rewrite (build_levels_abs _ _ _ _ H). rewrite <- C1.
+      clear. induction gs; cbn; auto. now rewrite IHgs.
+  Qed.
+End BulkAbs.
+
+Theorem bulk_load_abs d ksz es t : StronglySorted Z.le (map fst es) ->
+  bulk_load d ksz es = Ok t -> abs (root t) = mm_of_list es.
+Proof. apply bulk_load_with_abs. Qed.
+
 (** * the loader as written is wrong for taller trees: degree 5, thirty distinct keys *)
 Definition c17_ksz (_ : key) : Z := 13%Z.
 Definition c17_entries (n : nat) : list (key * rowid) := map (fun i => (Z.of_nat i, Z.of_nat i)) (seq 0 n).
